@@ -2,6 +2,1089 @@
 //! aat.rs state tables (StateTable / ExtendedStateTable class / entry), kern.rs, ankr.rs / feat.rs / ltag.rs / trak.rs accessors, ift.rs patch-map header helpers
 //! with Model/HandAat.lean (`ha.*` driver commands), on generator-based inputs with truncations and
 //! boundary fields; plus the group's own byte-level oracles.
+//!
+//! (The repository has no kern.rs / kerx.rs / morx.rs / trak.rs at the verified commit.)
+//!
+//! Commands: `ha.lk` (`Lookup::read` + `value::<u16|u32>` / `TypedLookup`), `ha.st` (`StateTable::read`,
+//! `class`, `entry`), `ha.stx` (`ExtendedStateTable::<T>::read`, `class`, `entry` for payload sizes
+//! 0 / 1 / 2 / 4 / 6 and the native `u16` payload), `ha.sentry` (`StateEntry::<T>::read`), `ha.ankr`
+//! (`Ankr::anchor_points`), `ha.feat` (`Feat::find`, `FeatureName::{is_exclusive,
+//! default_setting_index}`), `ha.ltag` (`Ltag::{tag_indices, index_for_tag}`).
+use super::aat::{gen_lookup, gen_state_table, gen_stx, LkMode, LK_FORMATS, LK_MODES, ST_MODES};
 use super::*;
+use font_types::{BigEndian, GlyphId, GlyphId16};
+use read_fonts::tables::aat::{ExtendedStateTable, ExtendedStateTableU16, Lookup, LookupSegment4, LookupU16, LookupU32, NoPayload, StateEntry, StateTable};
+use read_fonts::tables::ankr::Ankr;
+use read_fonts::tables::feat::Feat;
+use read_fonts::tables::ltag::Ltag;
+use read_fonts::{FontData, FontRead, ReadError};
 
-pub fn run(_ctx: &mut Ctx) {}
+fn err_str(e: &ReadError) -> String {
+    match e {
+        ReadError::OutOfBounds => "eO".into(),
+        ReadError::NullOffset => "eN".into(),
+        ReadError::MalformedData(_) => "eM".into(),
+        ReadError::InvalidFormat(n) => format!("eF{n}"),
+        other => format!("e?{other:?}"),
+    }
+}
+
+fn rd(b: &[u8], at: usize, n: usize) -> Option<u64> {
+    let s = b.get(at..at.checked_add(n)?)?;
+    Some(s.iter().fold(0u64, |a, x| (a << 8) | *x as u64))
+}
+
+fn w16(b: &[u8], at: usize) -> u32 {
+    rd(b, at, 2).unwrap_or(0) as u32
+}
+
+fn w32(b: &[u8], at: usize) -> u64 {
+    rd(b, at, 4).unwrap_or(0)
+}
+
+fn fnv(xs: &[u64]) -> u64 {
+    let mut h = 0xcbf2_9ce4_8422_2325u64;
+    for x in xs {
+        h = (h ^ x).wrapping_mul(0x0000_0100_0000_01b3);
+    }
+    h
+}
+
+/// is the slice `s` a sub-slice of `whole`?
+fn inside<T>(s: &[T], whole: &[u8]) -> bool {
+    let a = s.as_ptr() as usize;
+    let e = a + std::mem::size_of_val(s);
+    let w = whole.as_ptr() as usize;
+    s.is_empty() || (a >= w && e <= w + whole.len())
+}
+
+/// one correspondence case: the real code inside `catch`, no-panic oracle, case line
+fn ask(ctx: &mut Ctx, req: String, bytes: &[u8], f: impl FnOnce() -> String) -> Option<String> {
+    PROGRESS.fetch_add(1, Ordering::Relaxed);
+    {
+        let mut cur = CURRENT.lock().unwrap();
+        cur.0.clear();
+        cur.0.push_str(req.split(' ').next().unwrap_or(""));
+        cur.1.clear();
+        cur.1.extend_from_slice(bytes);
+    }
+    match catch(f) {
+        Ok(s) => {
+            ctx.oracle("no-panic", true, String::new, String::new);
+            ctx.case(req, s.clone());
+            Some(s)
+        }
+        Err(m) => {
+            ctx.oracle("no-panic", false, || req.clone(), || format!("panicked: {m}"));
+            None
+        }
+    }
+}
+
+/// the input and its variants: every prefix truncation, every registered count / offset / length
+/// field at boundary values, a few random flips
+fn variants(rng: &mut Rng, b: &B, flips: usize) -> Vec<Vec<u8>> {
+    let base = &b.v;
+    let n = base.len();
+    let mut out = vec![base.clone()];
+    let mut cuts: Vec<usize> = vec![];
+    if n <= 200 {
+        cuts.extend(0..n);
+    } else {
+        cuts.extend(0..128);
+        cuts.extend(n - 48..n);
+        for (p, w) in &b.fields {
+            for d in [0usize, 1] {
+                cuts.push((*p + d).min(n - 1));
+                cuts.push((*p + *w as usize + d).min(n - 1));
+            }
+        }
+        cuts.sort();
+        cuts.dedup();
+    }
+    for c in cuts {
+        out.push(base[..c].to_vec());
+    }
+    for (p, w) in &b.fields {
+        let (p, w) = (*p, *w as usize);
+        if p + w > n {
+            continue;
+        }
+        let max = (1u64 << (8 * w as u32)) - 1;
+        let cur = rd(base, p, w).unwrap();
+        let rest = (n - p) as u64;
+        let mut vals = vec![0, 1, 2, max - 1, max, max / 2, max / 2 + 1, n as u64, n as u64 + 1, (n as u64).saturating_sub(1), rest, rest + 1, rest.saturating_sub(1), cur.wrapping_add(1), cur.wrapping_sub(1), cur.wrapping_mul(2)];
+        vals.sort();
+        vals.dedup();
+        for v in vals {
+            let v = v & max;
+            if v == cur {
+                continue;
+            }
+            let mut m = base.clone();
+            for i in 0..w {
+                m[p + i] = (v >> (8 * (w - 1 - i))) as u8;
+            }
+            out.push(m);
+        }
+    }
+    for _ in 0..flips {
+        if n == 0 {
+            break;
+        }
+        let mut m = base.clone();
+        for _ in 0..1 + rng.below(3) {
+            let p = rng.below(n as u64) as usize;
+            m[p] = match rng.below(4) {
+                0 => 0,
+                1 => 0xFF,
+                2 => m[p] ^ (1 << rng.below(8)),
+                _ => rng.next() as u8,
+            };
+        }
+        out.push(m);
+    }
+    out
+}
+
+fn cap<T: Clone>(rng: &mut Rng, mut v: Vec<T>, n: usize) -> Vec<T> {
+    while v.len() > n {
+        let k = rng.below(v.len() as u64) as usize;
+        v.remove(k);
+    }
+    v
+}
+
+// ------------------------------------------------------------------------------------------------
+// lookups
+
+/// glyph ids worth asking the lookup table at `bytes`: every 16-bit word of the head ± 1 and the
+/// ends of the value arrays the formats derive from the data length
+fn lk_probes(rng: &mut Rng, bytes: &[u8]) -> Vec<u16> {
+    let len = bytes.len();
+    let mut vals: Vec<u32> = vec![];
+    for i in 0..len.min(56) / 2 {
+        vals.push(w16(bytes, 2 * i));
+    }
+    for base in [0u32, w16(bytes, 2), w16(bytes, 4)] {
+        for k in [2usize, 6, 8] {
+            for u in [1usize, 2, 4] {
+                vals.push(base.saturating_add((len.saturating_sub(k) / u) as u32));
+            }
+        }
+    }
+    cap(rng, edge16(&vals), 56)
+}
+
+fn lk_values(bytes: &[u8], wide: bool, typed: bool, gs: &[u16]) -> Vec<String> {
+    let d = FontData::new(bytes);
+    if typed {
+        if wide {
+            match LookupU32::read(d) {
+                Err(e) => gs.iter().map(|_| err_str(&e)).collect(),
+                Ok(l) => gs.iter().map(|g| l.value(*g).map(|v| v.to_string()).unwrap_or_else(|e| err_str(&e))).collect(),
+            }
+        } else {
+            match LookupU16::read(d) {
+                Err(e) => gs.iter().map(|_| err_str(&e)).collect(),
+                Ok(l) => gs.iter().map(|g| l.value(*g).map(|v| v.to_string()).unwrap_or_else(|e| err_str(&e))).collect(),
+            }
+        }
+    } else {
+        match Lookup::read(d) {
+            Err(e) => gs.iter().map(|_| err_str(&e)).collect(),
+            Ok(l) => gs
+                .iter()
+                .map(|g| if wide { l.value::<u32>(*g).map(|v| v.to_string()) } else { l.value::<u16>(*g).map(|v| v.to_string()) }.unwrap_or_else(|e| err_str(&e)))
+                .collect(),
+        }
+    }
+}
+
+fn outcome(tok: &str) -> &str {
+    if tok.starts_with("eF") {
+        "eF"
+    } else if tok.starts_with('e') {
+        tok
+    } else {
+        "ok"
+    }
+}
+
+fn lookup_case(ctx: &mut Ctx, bytes: &[u8], wide: bool, typed: bool) {
+    let gs = lk_probes(&mut ctx.rng, bytes);
+    let size = if wide { 4 } else { 2 };
+    let req = format!("ha.lk {} {} | {}", size, hex(bytes), join(&gs));
+    if let Some(resp) = ask(ctx, req, bytes, || join(&lk_values(bytes, wide, typed, &gs))) {
+        let fmt = rd(bytes, 0, 2).map(|f| if [0, 2, 4, 6, 8, 10].contains(&f) { f.to_string() } else { "other".into() }).unwrap_or("none".into());
+        let read_ok = Lookup::read(FontData::new(bytes)).is_ok();
+        let mut seen: Vec<&str> = resp.split(' ').map(outcome).collect();
+        seen.sort();
+        seen.dedup();
+        for s in seen {
+            ctx.count(&format!("lk.f{fmt}.{}.{s}", if read_ok { "read-ok" } else { "read-err" }));
+        }
+    }
+}
+
+fn run_lookups(ctx: &mut Ctx) {
+    let rounds = if ctx.thorough { 5 } else { 1 };
+    for round in 0..rounds {
+        for &format in &LK_FORMATS {
+            for &mode in &LK_MODES {
+                for wide in [false, true] {
+                    let vsize = if format == 10 { *ctx.rng.pick(&[1usize, 2, 4, 4, 2, 0, 3, 8]) } else if wide { 4 } else { 2 };
+                    let (b, _) = gen_lookup(&mut ctx.rng, format, vsize, mode, &[]);
+                    ctx.count("lk.bases");
+                    let vs = variants(&mut ctx.rng, &b, 4);
+                    for (k, v) in vs.iter().enumerate() {
+                        lookup_case(ctx, v, wide, (k + round) % 2 == 0);
+                    }
+                }
+            }
+        }
+    }
+    // format word sweep + random short buffers
+    for f in [0u16, 1, 2, 3, 4, 5, 6, 7, 8, 9, 10, 11, 12, 0x100, 0x200, 0x7FFF, 0xFFFF] {
+        let mut v = f.to_be_bytes().to_vec();
+        v.extend(ctx.rng.bytes(20));
+        lookup_case(ctx, &v, f % 2 == 1, false);
+    }
+    for _ in 0..if ctx.thorough { 1500 } else { 300 } {
+        let n = ctx.rng.below(40) as usize;
+        let mut v = ctx.rng.bytes(n);
+        for x in v.iter_mut() {
+            if ctx.rng.chance(2, 3) {
+                *x &= 0x07;
+            }
+        }
+        if n >= 2 {
+            v[0] = 0;
+            v[1] = *ctx.rng.pick(&[0u8, 2, 4, 6, 8, 10]);
+        }
+        let wide = ctx.rng.chance(1, 2);
+        lookup_case(ctx, &v, wide, false);
+    }
+}
+
+// ------------------------------------------------------------------------------------------------
+// legacy state tables
+
+fn st_args(rng: &mut Rng, bytes: &[u8]) -> (Vec<u16>, Vec<u16>, Vec<u8>) {
+    let len = bytes.len();
+    let co = w16(bytes, 2) as usize;
+    let first = w16(bytes, co);
+    let n = w16(bytes, co.saturating_add(2));
+    let avail = len.saturating_sub(co.saturating_add(4)) as u32;
+    let gs = cap(rng, edge16(&[first, first.saturating_add(n), first.saturating_add(avail), n, avail]), 28);
+    let size = w16(bytes, 0) as usize;
+    let ao = w16(bytes, 4) as usize;
+    let rows = len.saturating_sub(ao) / size.max(1);
+    let mut states: Vec<u32> = vec![0, 1, 2, rows as u32, (rows as u32).saturating_sub(1), rows as u32 + 1, 0x7FFF, 0xFFFF];
+    if size > 0 {
+        states.push((0xFFFF / size) as u32);
+        states.push((len / size) as u32);
+    }
+    states.retain(|s| *s <= 0xFFFF);
+    states.sort();
+    states.dedup();
+    let mut classes: Vec<u32> = vec![0, 1, 2, 3, size as u32, (size as u32).saturating_sub(1), size as u32 + 1, 128, 255];
+    classes.retain(|c| *c <= 255);
+    classes.sort();
+    classes.dedup();
+    (gs, states.into_iter().map(|s| s as u16).collect(), classes.into_iter().map(|c| c as u8).collect())
+}
+
+/// which check of `StateTable::entry` decides (byte-level reference; used for the branch
+/// distribution and the `st.entry-ref` oracle: label `ok` ⇔ the real call is `Ok`)
+fn st_entry_branch(b: &[u8], s: u16, c: u8) -> &'static str {
+    let len = b.len();
+    let size = w16(b, 0) as usize;
+    if size == 0 {
+        return "nclasses0";
+    }
+    let c = if c as usize >= size { 1 } else { c as usize };
+    let ao = w16(b, 4) as usize;
+    if ao == 0 {
+        return "array-null";
+    }
+    if ao > len {
+        return "array-oob";
+    }
+    let Some(idx) = b.get(ao + s as usize * size + c) else { return "index-oob" };
+    let eo = w16(b, 6) as usize;
+    if eo == 0 {
+        return "entries-null";
+    }
+    if eo > len {
+        return "entries-oob";
+    }
+    let at = eo + *idx as usize * 4;
+    if at > len {
+        return "entry-offset-oob";
+    }
+    let Some(ns) = rd(b, at, 2) else { return "entry-read-oob" };
+    if rd(b, at + 2, 2).is_none() {
+        return "entry-read-oob";
+    }
+    let q = (ns as i64 - ao as i64) / size as i64;
+    if q < 0 {
+        "new-state-negative"
+    } else if ns as i64 - (ao as i64) < 0 {
+        "ok.rounded-to-0"
+    } else {
+        "ok"
+    }
+}
+
+fn st_class_branch(b: &[u8], g: u16) -> &'static str {
+    if g == 0xFFFF {
+        return "ok.deleted";
+    }
+    let co = w16(b, 2) as usize;
+    if co == 0 {
+        return "null";
+    }
+    if co > b.len() {
+        return "offset-oob";
+    }
+    let Some(n) = rd(b, co + 2, 2) else { return "subtable-read-oob" };
+    if co + 4 + n as usize > b.len() {
+        return "subtable-read-oob";
+    }
+    let first = w16(b, co) as usize;
+    if (g as usize) < first {
+        "below-first"
+    } else if g as usize - first < n as usize {
+        "ok"
+    } else {
+        "beyond-last"
+    }
+}
+
+fn st_case(ctx: &mut Ctx, bytes: &[u8]) {
+    let (gs, states, classes) = st_args(&mut ctx.rng, bytes);
+    let req = format!("ha.st {} | {} | {} | {}", hex(bytes), join(&gs), join(&states), join(&classes));
+    let mut agree = true;
+    let mut labels: Vec<String> = vec![];
+    let resp = ask(ctx, req, bytes, || match StateTable::read(FontData::new(bytes)) {
+        Err(_) => "err".into(),
+        Ok(t) => {
+            let cs: Vec<String> = gs
+                .iter()
+                .map(|g| {
+                    let r = t.class(GlyphId16::new(*g));
+                    let l = st_class_branch(bytes, *g);
+                    agree &= r.is_ok() == l.starts_with("ok");
+                    labels.push(format!("st.class.{l}"));
+                    r.map(|c| c.to_string()).unwrap_or_else(|e| err_str(&e))
+                })
+                .collect();
+            let mut es: Vec<String> = vec![];
+            for s in &states {
+                for c in &classes {
+                    let r = t.entry(*s, *c);
+                    let l = st_entry_branch(bytes, *s, *c);
+                    agree &= r.is_ok() == l.starts_with("ok");
+                    labels.push(format!("st.entry.{l}"));
+                    es.push(r.map(|e| format!("{}:{}", e.new_state, e.flags)).unwrap_or_else(|e| err_str(&e)));
+                }
+            }
+            format!("{} | {}", join(&cs), join(&es))
+        }
+    });
+    if let Some(resp) = resp {
+        ctx.oracle("st.read-needs-8-bytes", (resp == "err") == (bytes.len() < 8), || hex(bytes), || resp.clone());
+        ctx.oracle("st.ok-iff-reference", agree, || hex(bytes), || "Ok-ness of class / entry differs from the byte-level reference".into());
+        labels.sort();
+        labels.dedup();
+        for l in labels {
+            ctx.count(&l);
+        }
+        if resp == "err" {
+            ctx.count("st.read-err");
+        }
+    }
+}
+
+fn run_state(ctx: &mut Ctx) {
+    let rounds = if ctx.thorough { 12 } else { 3 };
+    for _ in 0..rounds {
+        for &mode in &ST_MODES {
+            let extra = if ctx.rng.chance(1, 2) { 2 } else { 0 };
+            let g = gen_state_table(&mut ctx.rng, mode, extra);
+            ctx.count("st.bases");
+            for v in variants(&mut ctx.rng, &g.b, 6) {
+                st_case(ctx, &v);
+            }
+        }
+    }
+    // state_size sweep on a fixed small table (class table of 2 glyphs, 12 bytes of state array, 3 entries)
+    for size in [0u16, 1, 2, 3, 4, 5, 6, 7, 11, 12, 13, 255, 256, 0x7FFF, 0x8000, 0xFFFF] {
+        let mut b = B::new();
+        b.u16(size).u16(8).u16(14).u16(26);
+        b.u16(3).u16(2).u8(1).u8(0);
+        for k in 0..12u8 {
+            b.u8(k % 3);
+        }
+        b.u16(14).u16(0x1111).u16(size.wrapping_add(14)).u16(0x2222).u16(13).u16(0x3333);
+        for cut in [0usize, 1, 2, 3, 4, 5, 8] {
+            let l = b.v.len() - cut;
+            st_case(ctx, &b.v[..l]);
+        }
+    }
+    // new_state conversion: entries whose new_state is around the state array offset
+    for ao in [8u16, 20, 0x7FFF, 0xFFFF] {
+        for size in [1u16, 2, 7, 0xFFFF] {
+            for ns in [0u16, 1, ao.wrapping_sub(size), ao.wrapping_sub(1), ao, ao.wrapping_add(1), ao.wrapping_add(size), 0x7FFF, 0x8000, 0xFFFF] {
+                let mut b = B::new();
+                // the state array offset may point beyond the data: then entry() is Err before the conversion
+                b.u16(size).u16(0).u16(if ao < 0x7FFF { ao } else { 8 }).u16(12);
+                b.u16(0).u16(0);
+                b.u16(ns).u16(0xABCD);
+                b.zeros(12);
+                st_case(ctx, &b.v);
+            }
+        }
+    }
+    for _ in 0..if ctx.thorough { 1500 } else { 300 } {
+        let n = ctx.rng.below(56) as usize;
+        let mut v = ctx.rng.bytes(n);
+        for x in v.iter_mut() {
+            if ctx.rng.chance(3, 4) {
+                *x &= 0x0F;
+            }
+        }
+        for k in [0usize, 2, 4, 6] {
+            if k < n {
+                v[k] = 0;
+            }
+        }
+        st_case(ctx, &v);
+    }
+}
+
+// ------------------------------------------------------------------------------------------------
+// extended state tables
+
+fn stx_args(rng: &mut Rng, bytes: &[u8]) -> (Vec<u16>, Vec<u16>, Vec<u16>) {
+    let len = bytes.len();
+    let co = w32(bytes, 4) as usize;
+    let gs = match bytes.get(co..) {
+        Some(b) if co >= 16 => {
+            let p = lk_probes(rng, b);
+            cap(rng, p, 24)
+        }
+        _ => edge16(&[]),
+    };
+    let nc = w32(bytes, 0);
+    let ao = w32(bytes, 8) as usize;
+    let words = (len.saturating_sub(ao) / 2) as u64;
+    let rows = words / nc.max(1);
+    let mut states: Vec<u64> = vec![0, 1, 2, rows, rows.saturating_sub(1), rows + 1, words, 0x7FFF, 0xFFFF];
+    states.retain(|s| *s <= 0xFFFF);
+    states.sort();
+    states.dedup();
+    let mut classes: Vec<u64> = vec![0, 1, 2, 3, nc, nc.saturating_sub(1), nc + 1, words, 0xFFFF];
+    classes.retain(|c| *c <= 0xFFFF);
+    classes.sort();
+    classes.dedup();
+    (gs, states.into_iter().map(|s| s as u16).collect(), classes.into_iter().map(|c| c as u16).collect())
+}
+
+fn stx_entry_branch(b: &[u8], ps: usize, s: u16, c: u16) -> &'static str {
+    let len = b.len();
+    let nc = w32(b, 0) as usize;
+    let c = if c as usize >= nc { 1 } else { c as usize };
+    let ao = w32(b, 8) as usize;
+    if ao == 0 {
+        return "array-null";
+    }
+    if ao > len {
+        return "array-oob";
+    }
+    let ix = s as usize * nc + c;
+    if ix >= (len - ao) / 2 {
+        return "index-oob";
+    }
+    let idx = rd(b, ao + 2 * ix, 2).unwrap() as usize;
+    let eo = w32(b, 12) as usize;
+    if eo == 0 {
+        return "entries-null";
+    }
+    if eo > len {
+        return "entries-oob";
+    }
+    let e = eo + idx * (4 + ps);
+    if e > len {
+        return "entry-offset-oob";
+    }
+    if e + 4 > len {
+        return "entry-read-oob";
+    }
+    if e + 4 + ps > len {
+        return "payload-oob";
+    }
+    "ok"
+}
+
+type StxFn = fn(&[u8], &[u16], &[u16], &[u16]) -> Option<(Vec<String>, Vec<(bool, String)>)>;
+
+macro_rules! stx_impl {
+    ($name:ident, $t:ty, $dig:expr) => {
+        fn $name(bytes: &[u8], gs: &[u16], states: &[u16], classes: &[u16]) -> Option<(Vec<String>, Vec<(bool, String)>)> {
+            let t = ExtendedStateTable::<$t>::read(FontData::new(bytes)).ok()?;
+            let cs = gs.iter().map(|g| t.class(GlyphId16::new(*g)).map(|c| c.to_string()).unwrap_or_else(|e| err_str(&e))).collect();
+            let d: fn(&$t) -> u64 = $dig;
+            let mut es = vec![];
+            for s in states {
+                for c in classes {
+                    let r = t.entry(*s, *c);
+                    es.push((r.is_ok(), r.map(|e| format!("{}:{}:{}", e.new_state, e.flags, d(&e.payload))).unwrap_or_else(|e| err_str(&e))));
+                }
+            }
+            Some((cs, es))
+        }
+    };
+}
+
+stx_impl!(stx0, NoPayload, |_| 0);
+stx_impl!(stx1, u8, |p| *p as u64);
+stx_impl!(stx2, BigEndian<u16>, |p| p.get() as u64);
+stx_impl!(stx2n, u16, |p| u16::from_be(*p) as u64);
+stx_impl!(stx4, BigEndian<u32>, |p| p.get() as u64);
+stx_impl!(stx6, LookupSegment4, |p| (p.last_glyph() as u64) << 32 | (p.first_glyph() as u64) << 16 | p.value_offset() as u64);
+
+fn stx_case(ctx: &mut Ctx, bytes: &[u8], ps: usize, native: bool) {
+    let (gs, states, classes) = stx_args(&mut ctx.rng, bytes);
+    let req = format!("ha.stx {} {} | {} | {} | {}", ps, hex(bytes), join(&gs), join(&states), join(&classes));
+    let f: StxFn = match (ps, native) {
+        (0, _) => stx0,
+        (1, _) => stx1,
+        (2, false) => stx2,
+        (2, true) => {
+            debug_assert!(ExtendedStateTableU16::read(FontData::new(bytes)).is_ok() == (bytes.len() >= 16));
+            stx2n
+        }
+        (4, _) => stx4,
+        _ => stx6,
+    };
+    let mut agree = true;
+    let mut labels: Vec<String> = vec![];
+    let resp = ask(ctx, req, bytes, || match f(bytes, &gs, &states, &classes) {
+        None => "err".into(),
+        Some((cs, es)) => {
+            let mut k = 0;
+            for s in &states {
+                for c in &classes {
+                    let l = stx_entry_branch(bytes, ps, *s, *c);
+                    agree &= es[k].0 == (l == "ok");
+                    labels.push(format!("stx.entry.{l}"));
+                    k += 1;
+                }
+            }
+            for c in &cs {
+                labels.push(format!("stx.class.{}", outcome(c)));
+            }
+            format!("{} | {}", join(&cs), join(&es.into_iter().map(|e| e.1).collect::<Vec<_>>()))
+        }
+    });
+    if let Some(resp) = resp {
+        ctx.oracle("stx.read-needs-16-bytes", (resp == "err") == (bytes.len() < 16), || hex(bytes), || resp.clone());
+        ctx.oracle("stx.ok-iff-reference", agree, || format!("ps={ps} {}", hex(bytes)), || "Ok-ness of entry differs from the byte-level reference".into());
+        labels.sort();
+        labels.dedup();
+        for l in labels {
+            ctx.count(&l);
+        }
+        if resp == "err" {
+            ctx.count("stx.read-err");
+        }
+    }
+}
+
+fn run_stx(ctx: &mut Ctx) {
+    let rounds = if ctx.thorough { 5 } else { 1 };
+    for round in 0..rounds {
+        for &mode in &ST_MODES {
+            for ps in [0usize, 1, 2, 4, 6] {
+                let extra = if ctx.rng.chance(1, 2) { 4 } else { 0 };
+                let g = gen_stx(&mut ctx.rng, mode, ps, extra, 8);
+                ctx.count(&format!("stx.bases.ps{ps}"));
+                for (k, v) in variants(&mut ctx.rng, &g.b, 4).iter().enumerate() {
+                    stx_case(ctx, v, ps, (k + round) % 2 == 1);
+                }
+            }
+        }
+    }
+    // n_classes sweep on a fixed small table with 2 byte payloads
+    for nc in [0u32, 1, 2, 3, 4, 5, 6, 7, 0xFFFF, 0x10000, 0x7FFF_FFFF, 0xFFFF_FFFF] {
+        let mut b = B::new();
+        b.u32(nc).u32(16).u32(28).u32(52);
+        b.u16(8).u16(10).u16(4).u16(1).u16(2).u16(3);
+        for k in 0..12u16 {
+            b.u16(k % 3);
+        }
+        for k in 0..3u16 {
+            b.u16(k).u16(0x1000 * k).u16(0xA0 + k);
+        }
+        for cut in [0usize, 1, 2, 3, 5, 6, 7] {
+            let l = b.v.len() - cut;
+            stx_case(ctx, &b.v[..l], 2, cut % 2 == 0);
+        }
+    }
+    // entry table at an even / odd offset with a native u16 payload (alignment fix 4e41891)
+    for entry_off in [18u32, 19] {
+        let mut b = B::new();
+        b.u32(1).u32(0).u32(16).u32(entry_off);
+        b.u16(0);
+        if entry_off == 19 {
+            b.u8(0);
+        }
+        b.u16(1).u16(2).u16(3);
+        stx_case(ctx, &b.v, 2, true);
+        let mut odd = vec![0xA5u8];
+        odd.extend_from_slice(&b.v);
+        stx_case(ctx, &odd[1..], 2, true);
+    }
+    for _ in 0..if ctx.thorough { 1000 } else { 200 } {
+        let n = ctx.rng.below(72) as usize;
+        let mut v = ctx.rng.bytes(n);
+        for x in v.iter_mut() {
+            if ctx.rng.chance(3, 4) {
+                *x &= 0x0F;
+            }
+        }
+        for k in [0usize, 1, 2, 4, 5, 6, 8, 9, 10, 12, 13, 14] {
+            if k < n {
+                v[k] = 0;
+            }
+        }
+        let ps = *ctx.rng.pick(&[0usize, 1, 2, 4, 6]);
+        stx_case(ctx, &v, ps, false);
+    }
+    // StateEntry::<T>::read on every short length
+    for n in 0..=12usize {
+        for fill in 0..2 {
+            let v: Vec<u8> = if fill == 0 { (0..n).map(|i| i as u8 + 1).collect() } else { ctx.rng.bytes(n) };
+            for ps in [0usize, 1, 2, 4, 6] {
+                let req = format!("ha.sentry {} {}", ps, hex(&v));
+                let r = ask(ctx, req, &v, || {
+                    let d = FontData::new(&v);
+                    fn fmt<T>(r: Result<StateEntry<T>, ReadError>, p: impl Fn(&T) -> u64) -> String {
+                        r.map(|e| format!("{}:{}:{}", e.new_state, e.flags, p(&e.payload))).unwrap_or_else(|e| err_str(&e))
+                    }
+                    match ps {
+                        0 => fmt(StateEntry::<NoPayload>::read(d), |_| 0),
+                        1 => fmt(StateEntry::<u8>::read(d), |p| *p as u64),
+                        2 => {
+                            let a = fmt(StateEntry::<BigEndian<u16>>::read(d), |p| p.get() as u64);
+                            let b = fmt(StateEntry::<u16>::read(d), |p| u16::from_be(*p) as u64);
+                            assert_eq!(a, b);
+                            a
+                        }
+                        4 => fmt(StateEntry::<BigEndian<u32>>::read(d), |p| p.get() as u64),
+                        _ => fmt(StateEntry::<LookupSegment4>::read(d), |p| (p.last_glyph() as u64) << 32 | (p.first_glyph() as u64) << 16 | p.value_offset() as u64),
+                    }
+                });
+                if let Some(r) = r {
+                    ctx.oracle("sentry.ok-iff-fits", r.starts_with('e') == (n < 4 + ps), || format!("ps={ps} {}", hex(&v)), || r.clone());
+                    ctx.count(if r.starts_with('e') { "sentry.err" } else { "sentry.ok" });
+                }
+            }
+        }
+    }
+}
+
+// ------------------------------------------------------------------------------------------------
+// ankr / feat / ltag (generators after hand/aat.rs)
+
+#[derive(Clone, Copy, PartialEq, Eq, Debug)]
+enum AnkrMode {
+    Clean,
+    DataOffset,
+    LookupOffset,
+    NumPoints,
+    EntryAtEnd,
+}
+
+fn gen_ankr(rng: &mut Rng, mode: AnkrMode) -> B {
+    let mut gd = B::new();
+    let mut offs: Vec<u32> = vec![];
+    for _ in 0..1 + rng.below(4) {
+        offs.push(gd.len() as u32);
+        let n = rng.below(4) as u32;
+        let declared = if mode == AnkrMode::NumPoints && rng.chance(1, 2) { *rng.pick(&[n + 1, 0x3FFF_FFFF, 0x4000_0000, 0x4000_0001, 0x7FFF_FFFF, 0xFFFF_FFFF]) } else { n };
+        gd.f32(declared);
+        for _ in 0..n {
+            gd.i16(rng.next() as i16).i16(rng.next() as i16);
+        }
+    }
+    if mode == AnkrMode::EntryAtEnd {
+        let l = gd.len() as u32;
+        offs.extend([l, l - 1, l - 3, l - 4, l + 1, 0xFFFF]);
+    }
+    let fmt = *rng.pick(&LK_FORMATS);
+    let lm = if mode == AnkrMode::Clean { *rng.pick(&[LkMode::Clean, LkMode::High]) } else { *rng.pick(&LK_MODES) };
+    let (lk, _) = gen_lookup(rng, fmt, 2, lm, &offs);
+    let mut b = B::new();
+    b.u16(0).u16(0).f32(12).f32(0);
+    b.append(&lk);
+    let pad = rng.below(3) as usize;
+    b.zeros(pad);
+    let gdo = b.len() as u32;
+    b.append(&gd);
+    let total = b.len() as u32;
+    let gdo = match mode {
+        AnkrMode::DataOffset => *rng.pick(&[0u32, 1, total, total - 1, total - 4, total + 1, 0x7FFF_FFFF, 0xFFFF_FFF0, 0xFFFF_FFFF]),
+        _ => gdo,
+    };
+    b.set32(8, gdo);
+    if mode == AnkrMode::LookupOffset {
+        let lo = *rng.pick(&[0u32, 1, 11, 13, total, total - 1, total - 2, total + 1, 0xFFFF_FFFF]);
+        b.set32(4, lo);
+    }
+    b
+}
+
+fn ankr_case(ctx: &mut Ctx, bytes: &[u8]) {
+    let lo = w32(bytes, 4) as usize;
+    let mut gs: Vec<u32> = match bytes.get(lo..) {
+        Some(b) => {
+            let p = lk_probes(&mut ctx.rng, b);
+            cap(&mut ctx.rng, p, 32).into_iter().map(|g| g as u32).collect()
+        }
+        None => edge16(&[]).into_iter().map(|g| g as u32).collect(),
+    };
+    gs.extend([0x10000, 0x10001, 0xFFFFFF, 0xFFFF_FFFF]);
+    let req = format!("ha.ankr {} | {}", hex(bytes), join(&gs));
+    let mut inside_ok = true;
+    let mut kinds: Vec<String> = vec![];
+    let resp = ask(ctx, req, bytes, || match Ankr::read(FontData::new(bytes)) {
+        Err(_) => "err".into(),
+        Ok(t) => join(
+            &gs.iter()
+                .map(|g| match t.anchor_points(GlyphId::new(*g)) {
+                    Ok(p) => {
+                        inside_ok &= inside(p, bytes);
+                        kinds.push("ankr.ok".into());
+                        // an empty slice has no meaningful address: the offset is the one of the entry
+                        let off = if p.is_empty() { None } else { Some(p.as_ptr() as usize - bytes.as_ptr() as usize) };
+                        format!("{}:{}", off.map(|o| o.to_string()).unwrap_or("_".into()), p.len())
+                    }
+                    Err(e) => {
+                        kinds.push(format!("ankr.{}", outcome(&err_str(&e))));
+                        err_str(&e)
+                    }
+                })
+                .collect::<Vec<_>>(),
+        ),
+    });
+    if resp.is_some() {
+        ctx.oracle("ankr.points-inside-data", inside_ok, || hex(bytes), || "anchor point slice outside the table data".into());
+        kinds.sort();
+        kinds.dedup();
+        for k in kinds {
+            ctx.count(&k);
+        }
+    }
+}
+
+#[derive(Clone, Copy, PartialEq, Eq, Debug)]
+enum FeatMode {
+    Clean,
+    Unsorted,
+    Duplicates,
+    CountBeyond,
+    Empty,
+}
+
+fn gen_feat(rng: &mut Rng, mode: FeatMode) -> B {
+    let n = if mode == FeatMode::Empty { 0 } else { 1 + rng.below(7) as usize };
+    let mut feats: Vec<u16> = vec![];
+    let mut cur = if rng.chance(1, 4) { 0xFFFF - 2 * n as u32 - rng.below(3) as u32 } else { rng.below(5) as u32 };
+    for _ in 0..n {
+        feats.push(cur.min(0xFFFF) as u16);
+        cur += 1 + rng.below(3) as u32;
+    }
+    match mode {
+        FeatMode::Unsorted => rng.shuffle(&mut feats),
+        FeatMode::Duplicates if n > 1 => {
+            let k = rng.below(n as u64 - 1) as usize;
+            feats[k + 1] = feats[k];
+        }
+        _ => {}
+    }
+    let declared = if mode == FeatMode::CountBeyond { n + 1 } else { n };
+    let mut b = B::new();
+    b.u32(0x0001_0000).f16(declared as u16).u16(0).u32(0);
+    for f in &feats {
+        let flags: u16 = match rng.below(4) {
+            0 => 0,
+            1 => 0x8000,
+            2 => 0xC000 | rng.below(256) as u16,
+            _ => rng.next() as u16,
+        };
+        b.f16(*f).u16(rng.below(4) as u16).u32(rng.below(64) as u32).u16(flags).u16(256 + rng.below(40) as u16);
+    }
+    if mode == FeatMode::CountBeyond {
+        let k = rng.below(12) as usize;
+        b.bytes(&rng.bytes(k));
+    } else {
+        let k = rng.below(6) as usize;
+        b.bytes(&rng.bytes(k));
+    }
+    b
+}
+
+fn feat_case(ctx: &mut Ctx, bytes: &[u8]) {
+    let n = w16(bytes, 4) as usize;
+    let feats: Vec<u32> = (0..n.min(16)).map(|i| w16(bytes, 12 + 12 * i)).collect();
+    let probes = cap(&mut ctx.rng, edge16(&feats), 40);
+    let req = format!("ha.feat {} | {}", hex(bytes), join(&probes));
+    let mut hit_ok = true;
+    let mut kinds: Vec<&str> = vec![];
+    let resp = ask(ctx, req, bytes, || match Feat::read(FontData::new(bytes)) {
+        Err(_) => "err".into(),
+        Ok(t) => join(
+            &probes
+                .iter()
+                .map(|f| match t.find(*f) {
+                    None => {
+                        kinds.push("feat.miss");
+                        "n".to_string()
+                    }
+                    Some(name) => {
+                        kinds.push("feat.hit");
+                        hit_ok &= name.feature() == *f;
+                        format!("{}:{}:{}", feat_fields(&name), name.is_exclusive() as u8, name.default_setting_index())
+                    }
+                })
+                .collect::<Vec<_>>(),
+        ),
+    });
+    if let Some(resp) = resp {
+        ctx.oracle("feat.hit-has-feature", hit_ok, || hex(bytes), || "find returned a record of another feature".into());
+        kinds.sort();
+        kinds.dedup();
+        for k in kinds {
+            ctx.count(k);
+        }
+        if resp == "err" {
+            ctx.count("feat.read-err");
+        }
+    }
+}
+
+/// `find` returns a COPY of the record, so the observable is the record's fields (not its index)
+fn feat_fields(name: &read_fonts::tables::feat::FeatureName) -> String {
+    format!("{}.{}.{}.{}", name.n_settings(), name.setting_table_offset().to_u32(), name.feature_flags(), name.name_index().to_u16())
+}
+
+#[derive(Clone, Copy, PartialEq, Eq, Debug)]
+enum LtagMode {
+    Clean,
+    RangesAtEnd,
+    BadUtf8,
+    CountBeyond,
+    Overlap,
+    Empty,
+}
+
+const TAGS: [&str; 10] = ["en", "sp", "sr", "zh-Hant", "", "x", "de-AT", "en", "\u{e9}t\u{e9}", "\u{20ac}\u{10348}"];
+
+fn gen_ltag(rng: &mut Rng, mode: LtagMode) -> B {
+    let n = if mode == LtagMode::Empty { 0 } else { 1 + rng.below(6) as usize };
+    let mut b = B::new();
+    let declared = if mode == LtagMode::CountBeyond { *rng.pick(&[n as u32 + 1, n as u32 + 2, 0x4000_0000, 0xFFFF_FFFF]) } else { n as u32 };
+    b.u32(1).u32(0).f32(declared);
+    let ranges_at = b.len();
+    for _ in 0..n {
+        b.f16(0).f16(0);
+    }
+    let mut strings: Vec<(usize, usize)> = vec![];
+    for k in 0..n {
+        let t = *rng.pick(&TAGS);
+        let at = b.len();
+        if mode == LtagMode::BadUtf8 && rng.chance(2, 3) {
+            let bad: &[u8] = *rng.pick(&[
+                &[0xFFu8][..],
+                &[0xC3],
+                &[0xE2, 0x82],
+                &[0x80, 0x41],
+                &[0xC0, 0x80],
+                &[0xC1, 0xBF],
+                &[0xED, 0xA0, 0x80],
+                &[0xED, 0x9F, 0xBF],
+                &[0xE0, 0x9F, 0xBF],
+                &[0xE0, 0xA0, 0x80],
+                &[0xF0, 0x8F, 0xBF, 0xBF],
+                &[0xF0, 0x90, 0x80, 0x80],
+                &[0xF4, 0x8F, 0xBF, 0xBF],
+                &[0xF4, 0x90, 0x80, 0x80],
+                &[0xF5, 0x80, 0x80, 0x80],
+                &[0xF1, 0x80, 0x80],
+                &[0x41, 0xE2, 0x82, 0xAC, 0x42],
+                &[0xE2, 0x82, 0x41],
+                &[0xF0, 0x90, 0x80, 0xC0],
+            ]);
+            b.bytes(bad);
+            strings.push((at, bad.len()));
+        } else {
+            b.bytes(t.as_bytes());
+            strings.push((at, t.len()));
+        }
+        b.set16(ranges_at + 4 * k, strings[k].0 as u16);
+        b.set16(ranges_at + 4 * k + 2, strings[k].1 as u16);
+    }
+    if n > 0 {
+        let k = rng.below(n as u64) as usize;
+        let l = b.len();
+        match mode {
+            LtagMode::RangesAtEnd => {
+                let (off, ln) = *rng.pick(&[(l, 0usize), (l, 1), (l - 1, 1), (l - 1, 2), (l + 1, 0), (0, l), (0, l + 1), (0xFFFF, 0xFFFF), (0xFFFF, 1), (1, 0xFFFF), (l - 2, 2)]);
+                b.set16(ranges_at + 4 * k, off as u16);
+                b.set16(ranges_at + 4 * k + 2, ln as u16);
+            }
+            LtagMode::Overlap => {
+                let j = rng.below(n as u64) as usize;
+                let (off, ln) = strings[j];
+                b.set16(ranges_at + 4 * k, off as u16);
+                b.set16(ranges_at + 4 * k + 2, (ln + rng.below(2) as usize) as u16);
+            }
+            _ => {}
+        }
+    }
+    b
+}
+
+fn ltag_case(ctx: &mut Ctx, bytes: &[u8]) {
+    // tags to ask for: the strings of the first ranges + fixed ones (hex; "." = the empty tag)
+    let n = w32(bytes, 8) as usize;
+    let mut asks: Vec<Vec<u8>> = vec![];
+    for i in 0..n.min(6) {
+        let (o, l) = (w16(bytes, 12 + 4 * i) as usize, w16(bytes, 14 + 4 * i) as usize);
+        if let Some(s) = bytes.get(o..o + l) {
+            if l <= 24 && std::str::from_utf8(s).is_ok() {
+                asks.push(s.to_vec());
+            }
+        }
+    }
+    asks.extend([b"".to_vec(), b"en".to_vec(), b"zz".to_vec(), b"zh-Hant".to_vec(), "\u{20ac}".as_bytes().to_vec()]);
+    let req = format!("ha.ltag {} | {}", hex(bytes), asks.iter().map(|a| if a.is_empty() { ".".to_string() } else { hex(a) }).collect::<Vec<_>>().join(" "));
+    let len = bytes.len();
+    let mut bounded = true;
+    let mut inside_ok = true;
+    let mut yielded = 0usize;
+    let resp = ask(ctx, req, bytes, || match Ltag::read(FontData::new(bytes)) {
+        Err(_) => "err".into(),
+        Ok(t) => {
+            let mut xs: Vec<u64> = vec![];
+            let mut cnt = 0usize;
+            for (i, s) in t.tag_indices() {
+                cnt += 1;
+                if cnt > len / 4 + 1 {
+                    bounded = false;
+                    break;
+                }
+                inside_ok &= inside(s.as_bytes(), bytes);
+                let off = if s.is_empty() {
+                    // the address of an empty sub-slice is still `data + start`
+                    (s.as_ptr() as usize).wrapping_sub(bytes.as_ptr() as usize)
+                } else {
+                    s.as_ptr() as usize - bytes.as_ptr() as usize
+                };
+                xs.extend([i as u64, off as u64, s.len() as u64]);
+            }
+            yielded = cnt;
+            let ixs: Vec<String> = asks.iter().map(|a| t.index_for_tag(std::str::from_utf8(a).unwrap()).map(|i| i.to_string()).unwrap_or("n".into())).collect();
+            format!("{} {} | {}", cnt, fnv(&xs), join(&ixs))
+        }
+    });
+    if let Some(resp) = resp {
+        ctx.oracle("ltag.iter-bounded", bounded, || hex(bytes), || "tag_indices yields more than one item per range record".into());
+        ctx.oracle("ltag.strings-inside-data", inside_ok, || hex(bytes), || "tag string outside the table data".into());
+        ctx.count(if resp == "err" {
+            "ltag.read-err"
+        } else if yielded == 0 {
+            "ltag.none-yielded"
+        } else if yielded == n {
+            "ltag.all-yielded"
+        } else {
+            "ltag.some-filtered"
+        });
+    }
+}
+
+fn run_misc(ctx: &mut Ctx) {
+    let rounds = if ctx.thorough { 10 } else { 2 };
+    for _ in 0..rounds {
+        for mode in [AnkrMode::Clean, AnkrMode::DataOffset, AnkrMode::LookupOffset, AnkrMode::NumPoints, AnkrMode::EntryAtEnd] {
+            let b = gen_ankr(&mut ctx.rng, mode);
+            ctx.count("ankr.bases");
+            for v in variants(&mut ctx.rng, &b, 4) {
+                ankr_case(ctx, &v);
+            }
+        }
+        for mode in [FeatMode::Clean, FeatMode::Unsorted, FeatMode::Duplicates, FeatMode::CountBeyond, FeatMode::Empty] {
+            let b = gen_feat(&mut ctx.rng, mode);
+            ctx.count("feat.bases");
+            for v in variants(&mut ctx.rng, &b, 4) {
+                feat_case(ctx, &v);
+            }
+        }
+        for mode in [LtagMode::Clean, LtagMode::RangesAtEnd, LtagMode::BadUtf8, LtagMode::CountBeyond, LtagMode::Overlap, LtagMode::Empty] {
+            let b = gen_ltag(&mut ctx.rng, mode);
+            ctx.count("ltag.bases");
+            for v in variants(&mut ctx.rng, &b, 4) {
+                ltag_case(ctx, &v);
+            }
+        }
+    }
+    // feat: flag words of interest
+    for flags in [0u16, 1, 0xFF, 0x3FFF, 0x4000, 0x4001, 0x40FF, 0x41FF, 0x7FFF, 0x8000, 0x80FF, 0xBFFF, 0xC000, 0xC001, 0xC0FF, 0xFFFF] {
+        let mut b = B::new();
+        b.u32(0x0001_0000).u16(1).u16(0).u32(0);
+        b.u16(7).u16(1).u32(24).u16(flags).u16(256);
+        b.u16(0).u16(257);
+        feat_case(ctx, &b.v);
+    }
+    // ltag: one range sweeping over the end of the data
+    {
+        let mut base = B::new();
+        base.u32(1).u32(0).u32(1).u16(0).u16(0);
+        base.bytes(b"en-GB");
+        let l = base.len();
+        for off in [0usize, 1, 15, 16, l - 2, l - 1, l, l + 1, 0xFFFE, 0xFFFF] {
+            for ln in [0usize, 1, 2, 5, 6, l, l + 1, 0xFFFE, 0xFFFF] {
+                let mut v = base.v.clone();
+                v[12..14].copy_from_slice(&(off as u16).to_be_bytes());
+                v[14..16].copy_from_slice(&(ln as u16).to_be_bytes());
+                ltag_case(ctx, &v);
+            }
+        }
+    }
+    // ltag: every 1–4 byte sequence class of UTF-8 as the single tag
+    for _ in 0..if ctx.thorough { 2000 } else { 400 } {
+        let k = 1 + ctx.rng.below(4) as usize;
+        let mut s: Vec<u8> = vec![];
+        for j in 0..k {
+            s.push(if j == 0 {
+                *ctx.rng.pick(&[0x00u8, 0x41, 0x7F, 0x80, 0xBF, 0xC0, 0xC1, 0xC2, 0xDF, 0xE0, 0xE1, 0xEC, 0xED, 0xEE, 0xEF, 0xF0, 0xF1, 0xF3, 0xF4, 0xF5, 0xFF])
+            } else {
+                *ctx.rng.pick(&[0x00u8, 0x41, 0x7F, 0x80, 0x8F, 0x90, 0x9F, 0xA0, 0xBF, 0xC0, 0xC2, 0xE0, 0xFF])
+            });
+        }
+        let mut b = B::new();
+        b.u32(1).u32(0).u32(1).u16(16).u16(k as u16);
+        b.bytes(&s);
+        ltag_case(ctx, &b.v);
+    }
+}
+
+pub fn run(ctx: &mut Ctx) {
+    run_lookups(ctx);
+    run_state(ctx);
+    run_stx(ctx);
+    run_misc(ctx);
+}
